@@ -62,6 +62,11 @@ func (x *exec) callCommon(st *State, fr *Frame, ins ssa.Instruction, c *ssa.Call
 	} else if ci.dynamic && ci.fn == nil {
 		x.safe(st, ins, "nilfunc", smt.Not(smt.Eq(fnv.one(), e.null())))
 	}
+	// package initialisers of imported packages only set their own package's variables
+	if ci.fn != nil && ci.fn.Name() == "init" && ci.fn.Signature.Recv() == nil && ci.fn.Parent() == nil && ci.fn != x.unitFn && ci.fn.Synthetic != "" {
+		k(st, nil)
+		return
+	}
 	// intrinsics
 	if ci.fn != nil {
 		if rets, ok := x.intrinsic(st, fr, ins, ci, full); ok {
@@ -84,6 +89,25 @@ func (x *exec) callCommon(st *State, fr *Frame, ins ssa.Instruction, c *ssa.Call
 	if ci.fn != nil && ci.fn.Blocks != nil && e.w.Prog.InModule(pkgPathOf(ci.fn)) && fr.depth < maxInlineDepth && !fr.onStack(ci.fn) {
 		x.inline(st, fr, ins, ci, full, k)
 		return
+	}
+	// dynamic call declared pure / noeffect by the unit's contract
+	if ci.dynamic && x.unit != nil && x.unit.Spec != nil && fr.isUnit {
+		if a := varOf(c.Value); a != nil {
+			if mode := x.unit.Spec.DynCalls[a.Comment]; mode != "" {
+				e.trustedUsed["dyncall "+a.Comment+" ("+mode+") in "+x.unit.Name] = true
+				var rets []Value
+				res := ci.sig.Results()
+				for i := 0; i < res.Len(); i++ {
+					r := e.fresh("dyn_"+a.Comment, res.At(i).Type())
+					e.assumeValid(st, r)
+					rets = append(rets, r)
+				}
+				x.recordEventVals(st, ins, "var:"+a.Comment, kind, full, nil)
+				st.trace[len(st.trace)-1].Rets = rets
+				k(st, rets)
+				return
+			}
+		}
 	}
 	// havoc
 	x.recordEventVals(st, ins, ci.key, kind, full, nil)
@@ -514,7 +538,9 @@ func (x *exec) applyContract(st *State, fr *Frame, ins ssa.Instruction, ci calle
 	rn := resultNames(ci.sig)
 	for i := 0; i < res.Len(); i++ {
 		var r Value
-		if fs.Fresh && i == 0 && isPointerShaped(res.At(i).Type()) {
+		if fs.Opts["stable"] != "" && res.Len() == 1 {
+			r = x.stableCall(st, ci, args)
+		} else if fs.Fresh && i == 0 && isPointerShaped(res.At(i).Type()) {
 			r = Value{T: res.At(i).Type(), L: []smt.Term{e.newRef(st, "fresh_"+lastName(ci.key))}}
 		} else {
 			r = e.fresh("r_"+lastName(ci.key), res.At(i).Type())
@@ -538,6 +564,9 @@ func (x *exec) applyContract(st *State, fr *Frame, ins ssa.Instruction, ci calle
 	}
 	for _, cl := range fs.Ensures {
 		st.assume(post.evalBool(cl.Expr))
+	}
+	if ev := st.trace; len(ev) > 0 && ev[len(ev)-1].Site == ins {
+		ev[len(ev)-1].Rets = rets
 	}
 	k(st, rets)
 }
